@@ -234,3 +234,190 @@ def run_c19(tier, seed, write_evidence, only=None):
           f"queries={queries} solver_s={solver_s:.1f}")
     log(json.dumps(dict(stats)))
     return 0
+
+
+# ---------------------------------------------------------------------------------------------
+# C21 (b): rewrite + technology mapping of the real `aig` passes, per corpus design
+# ---------------------------------------------------------------------------------------------
+TVAIG_DIR = os.path.join(ROOT, "tv", "tvaig")
+TVAIG = os.path.join(TARGET, "tvaig", "debug", "tvaig")
+
+
+def build_tvaig():
+    import shutil
+    shutil.copy("/repo/Cargo.lock", os.path.join(TVAIG_DIR, "Cargo.lock"))
+    env = dict(os.environ, CARGO_NET_OFFLINE="true")
+    p = subprocess.run(["cargo", "build", "--offline", "--target-dir", os.path.join(TARGET, "tvaig")],
+                       cwd=TVAIG_DIR, env=env, stdout=subprocess.PIPE, stderr=subprocess.STDOUT, text=True)
+    if p.returncode != 0:
+        log(p.stdout[-3000:])
+        return False
+    return True
+
+
+def run_aig_one(item, tier, work, cap):
+    label, path = item
+    try:
+        p = subprocess.run([PY, os.path.join(ROOT, "tv", "aig_worker.py"), label, path, tier, work],
+                           capture_output=True, text=True, timeout=cap)
+        return json.loads(p.stdout.strip().splitlines()[-1])
+    except Exception as e:  # noqa: BLE001
+        return dict(label=label, path=path, error=f"worker failed: {e}", modules=[])
+
+
+def run_c21_tv(tier, seed, only=None):
+    """returns (rc, coverage-dict).  rc: 0 ok, 1 violation (lines printed), 2 inconclusive."""
+    t0 = time.time()
+    work = os.path.join(TARGET, "tvwork")
+    os.makedirs(work, exist_ok=True)
+    if not build_tvaig():
+        return 2, dict(aig_tv="tvaig (synthesizer built with --features aig) did not build")
+    items = [i for i in corpus_mod.corpus(os.path.join(work, "snips"), seed)
+             if tier == "thorough" or not i[0].startswith("testcases::")]
+    if only:
+        items = [i for i in items if any(o in i[0] for o in only)]
+    cap = 150 if tier == "quick" else 900
+    jobs = int(os.environ.get("VERIF_JOBS", "16"))
+    with cf.ThreadPoolExecutor(max_workers=jobs) as ex:
+        results = list(ex.map(lambda it: run_aig_one(it, tier, work, cap), items))
+    stats = collections.Counter()
+    diffs, samples = [], []
+    queries = 0
+    for r in results:
+        if r.get("error"):
+            stats["front_end_or_worker_error"] += 1
+            continue
+        for m in r["modules"]:
+            if m.get("skip"):
+                stats["skipped"] += 1
+                continue
+            for tag in ("rewrite", "rewrite_techmap", "roundtrip"):
+                v = m[tag]
+                stats[f"{tag}_{v['verdict']}"] += 1
+                queries += v.get("queries", 0)
+                if v["verdict"].startswith("differs"):
+                    diffs.append((r, m, tag, v))
+            if len(samples) < 8:
+                samples.append(dict(design=r["label"], top=m["top"], cells=m.get("cells"), ands=m.get("ands"),
+                                    ands_after_rewrite=m.get("ands_rewritten"),
+                                    rewrite=m["rewrite"]["verdict"], rewrite_techmap=m["rewrite_techmap"]["verdict"]))
+    known = load_known()
+    violations, known_lines = [], []
+    for (r, m, tag, v) in diffs:
+        key = f"{r['label']}::{m['top']}::{tag}"
+        kf = next((f for f in known.get("findings", []) if f["property"] == "C21" and f.get("design") == key), None)
+        if kf:
+            known_lines.append(f"KNOWN-FINDING: property=C21 {kf['what']} ({key})")
+            continue
+        # replay: re-dump with the real passes and evaluate both objects natively on the model
+        rp = os.path.join(ROOT, "evidence", "replay",
+                          f"C21-{r['label'].replace('::', '_').replace('#', '_')}-{m['top']}-{tag}.json")
+        os.makedirs(os.path.dirname(rp), exist_ok=True)
+        ok = native_aig_replay(r["path"], m["top"], tag, v, work)
+        json.dump(dict(property="C21", design=r["label"], path=r["path"], top=m["top"], comparison=tag,
+                       solver=v, native_reproduced=ok), open(rp, "w"), indent=1, default=str)
+        if ok:
+            violations.append((key, rp))
+        else:
+            stats["unreproduced"] += 1
+    cov = dict(aig_tv=dict(designs=len(items), verdicts=dict(stats), queries_discharged=queries,
+                           samples=samples, wall_s=round(time.time() - t0, 1),
+                           functions_encoded=["veryl_synthesizer::aig::convert::aigify", "aig::rewrite::rewrite",
+                                              "aig::techmap::aig_to_cells_techmap", "aig::convert::aig_to_cells",
+                                              "aig::npn4::{npn_canonical, lookup_canonical, transform_pattern} as used by rewrite"],
+                           bound="programs = the corpus (generated designs, /verif/tv/corpus, integration.rs snippets"
+                                 + (", /repo/testcases/veryl" if tier == "thorough" else "") + "); every input/state valuation per design"))
+    for line in known_lines:
+        print(line)
+    if violations:
+        for (k, rp) in violations:
+            print(f"VIOLATION property=C21 replay={rp}")
+        return 1, cov
+    proved = stats.get("rewrite_equal_inductive", 0)
+    floor = 250 if not only else 0
+    if stats.get("unreproduced") or proved < floor:
+        log(f"INCONCLUSIVE C21 aig part: {dict(stats)} (floor {floor})")
+        return 2, cov
+    print(f"OK property=C21 aig-passes designs={proved} queries={queries}")
+    return 0, cov
+
+
+def native_aig_replay(path, top, tag, v, work):
+    """Evaluate the two dumped objects (produced by the real passes) on the solver's assignment, natively."""
+    out = os.path.join(work, f"aigreplay_{os.getpid()}.json")
+    p = subprocess.run([TVAIG, path, out], capture_output=True, text=True, timeout=600)
+    if p.returncode != 0:
+        return False
+    d = json.load(open(out))
+    mod = next((m for m in d["modules"] if m["top"] == top and m["ok"]), None)
+    if not mod:
+        return False
+    x = mod["dump"]
+    if tag == "rewrite":
+        asg = {int(k[3:]): bool(b) for k, b in v.get("inputs", {}).items() if k.startswith("net")}
+
+        def sinks(a):
+            val = {}
+            for i, n in enumerate(a["nodes"]):
+                if n["k"] == "const":
+                    val[i] = False
+                elif n["k"] == "input":
+                    val[i] = asg.get(n["net"], False)
+                else:
+                    val[i] = (val[n["a"][0]] ^ n["a"][1]) and (val[n["b"][0]] ^ n["b"][1])
+            return [val[s["e"][0]] ^ s["e"][1] for s in a["sinks"]]
+        return sinks(x["a1"]) != sinks(x["a2"])
+    # netlist pair: evaluate with the Python gate evaluator on inputs/state of the model
+    ins, st = v.get("inputs", {}), v.get("state", {})
+    return eval_netlist_pair(x["g"], x["g2" if tag == "rewrite_techmap" else "g3"], ins, st)
+
+
+def eval_netlist_pair(a, b, ins, st):
+    def run(nl):
+        val = {}
+        port_bit = {}
+        for p in nl["ports"]:
+            if p["dir"] == "input":
+                for i, n in enumerate(p["nets"]):
+                    port_bit[n] = (p["name"], i)
+        import sys as _s
+        _s.setrecursionlimit(100000)
+
+        def net(n):
+            if n in val:
+                return val[n]
+            d = nl["nets"][n]["d"]
+            k = d["k"]
+            if k == "const":
+                r = bool(d["v"])
+            elif k == "input":
+                nm, i = port_bit[n]
+                r = bool((int(ins.get(nm, 0)) >> i) & 1)
+            elif k == "ffq":
+                o = nl["ffs"][d["i"]]["origin"]
+                r = bool((int(st.get(o[0], 0)) >> o[1]) & 1) if o else False
+            elif k == "cell":
+                c = nl["cells"][d["i"]]
+                xs = [net(i) for i in c["in"]]
+                r = CELL_PY[c["kind"]](xs)
+            else:
+                r = False
+            val[n] = r
+            return r
+        outs = [net(n) for p in nl["ports"] if p["dir"] == "output" for n in p["nets"]]
+        ds = [net(f["d"]) for f in nl["ffs"]]
+        return outs, ds
+    return run(a) != run(b)
+
+
+CELL_PY = {
+    "buf": lambda x: x[0], "not": lambda x: not x[0], "and2": lambda x: x[0] and x[1], "or2": lambda x: x[0] or x[1],
+    "nand2": lambda x: not (x[0] and x[1]), "nor2": lambda x: not (x[0] or x[1]), "xor2": lambda x: x[0] != x[1],
+    "xnor2": lambda x: x[0] == x[1], "and3": lambda x: x[0] and x[1] and x[2], "or3": lambda x: x[0] or x[1] or x[2],
+    "nand3": lambda x: not (x[0] and x[1] and x[2]), "nor3": lambda x: not (x[0] or x[1] or x[2]),
+    "ao21": lambda x: (x[0] and x[1]) or x[2], "aoi21": lambda x: not ((x[0] and x[1]) or x[2]),
+    "oa21": lambda x: (x[0] or x[1]) and x[2], "oai21": lambda x: not ((x[0] or x[1]) and x[2]),
+    "ao31": lambda x: (x[0] and x[1] and x[2]) or x[3], "aoi31": lambda x: not ((x[0] and x[1] and x[2]) or x[3]),
+    "ao22": lambda x: (x[0] and x[1]) or (x[2] and x[3]), "aoi22": lambda x: not ((x[0] and x[1]) or (x[2] and x[3])),
+    "oai22": lambda x: not ((x[0] or x[1]) and (x[2] or x[3])), "mux2": lambda x: x[2] if x[0] else x[1],
+}
